@@ -32,13 +32,28 @@ def keySub : GoType → Bool
   | .str | .int _ | .uint _ => true
   | _ => false
 
+/-- callback types whose method is found whatever the addressability (value receivers) -/
+def cbValue (n : String) : Bool := match cbKind n with | some (_, vr) => vr | none => false
+
+/-- `*n` for a callback type `n`: the pointer type has every method -/
+def cbPtr : GoType → Bool
+  | .lib n => (cbKind n).isSome
+  | _ => false
+
+/-- the callback's text is JSON (so that neither validation nor NoQuoteTextMarshaler can refuse it) -/
+def cbConf (n : String) (v : GoVal) : Bool :=
+  match callbackText n v with
+  | some m => (Json.parseDoc m).isSome
+  | none => false
+
 mutual
 def Sub : GoType → Bool
   | .bool | .int _ | .uint _ | .f32 | .f64 | .str | .num | .bytes | .any => true
-  | .sl t | .arr _ t | .ptr t => Sub t
+  | .sl t | .arr _ t => Sub t
+  | .ptr t => Sub t || cbPtr t
   | .map k t => keySub k && Sub t
   | .st fs => (match keepList fs with | some ks => subK ks | none => false) && SubF fs
-  | .lib n => libNames.contains n
+  | .lib n => libNames.contains n || cbValue n
   | _ => false
 def SubF : List (String × Option Bytes × GoType) → Bool
   | [] => true
@@ -89,7 +104,8 @@ def Conf (co : COpts) : GoType → GoVal → Bool
       match keepList fs with
       | some ks => ConfF co fs ks vs
       | none => false
-    | none => false
+    | none => cbConf n (.st vs)
+  | .lib n, .lib m => cbConf n (.lib m)
   | _, _ => false
 def ConfL (co : COpts) (t : GoType) : List GoVal → Bool
   | [] => true
